@@ -659,7 +659,13 @@ func (e *execution) choose(trans []transition) (int, bool) {
 		}
 		if e.opts.Prune && e.visited != nil {
 			key := e.stateKey()
-			budget := uint16(e.preempts+e.faults*64) + 1
+			budget := uint16(1)
+			if e.opts.PreemptBound >= 0 {
+				budget += uint16(e.preempts)
+			}
+			if e.opts.FaultBound >= 0 {
+				budget += uint16(e.faults * 64)
+			}
 			if old, ok := e.visited[key]; ok && old <= budget {
 				e.outcome, e.msg = Pruned, ""
 				return 0, false
@@ -753,6 +759,8 @@ func (e *execution) apply(tr transition) {
 		e.trace = append(e.trace, s)
 	}
 	e.last = t
+	// every operation advances the thread's program point: no operation may leave the state key unchanged
+	t.hist = mix(t.hist, uint64(o.kind)+0x5bd1e995)
 	switch o.kind {
 	case opSelect:
 		o.chosen = tr.alt
